@@ -152,9 +152,10 @@ Proof.
   - destruct (should_close s); [discriminate|].
     destruct (max_field lim <? lenN []); [discriminate|].
     destruct (max_headers lim <? _); [discriminate|].
-    destruct (start_message lim o s ((l0 :: ls0) ++ [[]])) as [[s' e1]|e|cc t] eqn:Es; try discriminate.
+    destruct (start_message _ _ _ _) as [[s' e1]|e|cc t] eqn:Es; try discriminate.
     exfalso. exact (start_message_lf _ _ _ _ _ Hp Es).
   - repeat (dmH H; try discriminate). inversion H; subst. unfold doomed_cfg, poisoned. cbn [fst snd lines payload].
+    change (l0 :: ls0 ++ [c :: line]) with ((l0 :: ls0) ++ [c :: line]).
     rewrite existsb_app, Hp. repeat split.
 Qed.
 
